@@ -76,7 +76,12 @@ lines.append("Each sub-agent saw only the text of one property and a scratch "
              "optimisation, small feature, library-API adaptation, robustness "
              "clean-up) written as a maintainer would, containing ONE honest "
              "mistake, without any description of the checks; 18 of the 20 "
-             "were caught by the checks as they stood. %d changes in total: %d rejected as outside the "
+             "were caught by the checks as they stood. Round 14 (S14-*) "
+             "repeated this with the kind of pull request fixed per agent "
+             "(new feature or option with a default / adaptation to a newer "
+             "library API / robustness clean-up), preferring silent "
+             "failures outside the obvious function; again 18 of 20 were "
+             "caught as the checks stood. %d changes in total: %d rejected as outside the "
              "quantified domain (marked), %d not detected (marked, a "
              "documented limit), %d detected; "
              "the 'caught by' column says when a check had to be "
